@@ -79,6 +79,13 @@ def letters(seed):
         ("X(b)?(m[0]&1==1)", cirq.X(b).with_classical_controls(
             cirq.BitMaskKeyCondition("m", index=0, bitmask=1, target_value=1, equal_target=True)), None, ("m",), True, False),
         ("Z(a)?m[0]", cirq.Z(a).with_classical_controls(cirq.KeyCondition(cirq.MeasurementKey("m"), 0)), None, ("m",), True, False),
+        # mixed-radix keys (qutrit digit leading / trailing) read as integers by conditions: value = t*2+a resp. a*3+t
+        ("M(t,a;m4)", cirq.measure(t, a, key="m4"), None, (), False, True),
+        ("X(b)?(m4==2)", cirq.X(b).with_classical_controls(sympy.Eq(sympy.Symbol("m4"), 2)), None, ("m4",), False, True),
+        ("X(b)?(m4&3==3)", cirq.X(b).with_classical_controls(
+            cirq.BitMaskKeyCondition("m4", bitmask=3, target_value=3, equal_target=True)), None, ("m4",), False, True),
+        ("M(a,t;m5)", cirq.measure(a, t, key="m5"), None, (), False, True),
+        ("X(b)?(m5>=4)", cirq.X(b).with_classical_controls(sympy.Ge(sympy.Symbol("m5"), 4)), None, ("m5",), False, True),
     ]
     return L
 
